@@ -2,10 +2,15 @@ package mcprops
 
 import (
 	"bytes"
+	"crypto/sha256"
+	"encoding/json"
 	"fmt"
 	"log/slog"
+	"os"
+	"os/exec"
 	"reflect"
 	"strings"
+	"sync"
 	"time"
 
 	"verif/internal/ev"
@@ -19,7 +24,7 @@ import (
 func init() {
 	Props["C15"] = &harness.Prop{
 		ID:             "C15",
-		Rule:           "histories: alphabet of 29 inputs (incl. two pairs of MSM frames with the same type, length and CRC value but different contents, four MSM4/MSM7 frames whose cells and satellites carry the reserved 'invalid' values, three MSM frames that carry a time error from the handler and are also too short to decode) (1005, 1006, MSM4 and MSM7 of GPS, Galileo, GLONASS and BeiDou with cells, four MSM messages whose cell masks have the same value and length but the shapes 2x3, 3x2, 1x6 and 6x1, 1230, an unknown type, non-RTCM text, a CRC-broken frame); every sequence of length <=3 (quick) / <=4 (thorough) through ONE handler at both log levels; each element is decoded (Analyse) and displayed twice; oracle: decoded structure deep-equal and text (without the MSM time lines) equal to those of a fresh handler, second and third display identical, decoded fields after display deep-equal to those of an undisplayed twin, raw bytes unchanged, and every message decoded earlier in the history and still held is displayed again and deep-compared after each later frame (nothing may be shared between messages); value copies of a delivered message: what consumer A does with its copy (String, Analyse, field assignments) leaves consumer B's copy deep-equal to a pristine one, also when A displays first at a different log level or after the message was analysed; non-RTCM messages of 1030..65537 bytes delivered by HandleMessages, displayed three times while a second consumer holds a copy. concurrency: two (thorough: also three) threads decoding and displaying frames on separate handlers and on value copies of one message, with scheduling points at every function and loop entry of rtcm/handler, rtcm/utils, rtcm/header and the six MSM and two station packages; every schedule with <=1 (quick) / <=2 (thorough) preemptions; oracle: every result equals the sequential baseline. Non-trivial = histories of length >=2 / distinct schedule traces",
+		Rule:           "histories: alphabet of 29 inputs (incl. two pairs of MSM frames with the same type, length and CRC value but different contents, four MSM4/MSM7 frames whose cells and satellites carry the reserved 'invalid' values, three MSM frames that carry a time error from the handler and are also too short to decode) (1005, 1006, MSM4 and MSM7 of GPS, Galileo, GLONASS and BeiDou with cells, four MSM messages whose cell masks have the same value and length but the shapes 2x3, 3x2, 1x6 and 6x1, 1230, an unknown type, non-RTCM text, a CRC-broken frame); every sequence of length <=3 (quick) / <=4 (thorough) through ONE handler at both log levels; each element is decoded (Analyse) and displayed twice; oracle: decoded structure deep-equal and text (without the MSM time lines) equal to those of a fresh handler, second and third display identical, decoded fields after display deep-equal to those of an undisplayed twin, raw bytes unchanged, and every message decoded earlier in the history and still held is displayed again and deep-compared after each later frame (nothing may be shared between messages); value copies of a delivered message: what consumer A does with its copy (String, Analyse, field assignments) leaves consumer B's copy deep-equal to a pristine one, also when A displays first at a different log level or after the message was analysed; each input also decoded and displayed as the first library call of a fresh process (one child process per input and level) and compared with the result after thousands of frames; non-RTCM messages of 1030..65537 bytes delivered by HandleMessages, displayed three times while a second consumer holds a copy. concurrency: two (thorough: also three) threads decoding and displaying frames on separate handlers and on value copies of one message, with scheduling points at every function and loop entry of rtcm/handler, rtcm/utils, rtcm/header and the six MSM and two station packages; every schedule with <=1 (quick) / <=2 (thorough) preemptions; oracle: every result equals the sequential baseline. Non-trivial = histories of length >=2 / distinct schedule traces",
 		Assumptions:    []string{"interleavings inside unsynchronised code are explored at function/loop-entry granularity; 'no data race' at the memory-model level is outside a cooperative scheduler and only touched by the auxiliary -race pass", "the two MSM time lines ('Time ...', 'Start of ... week ...') are removed before comparing texts, as the statement excludes them"},
 		Pre:            c15Histories,
 		Scenarios:      c15Scenarios,
@@ -104,6 +109,29 @@ func c15Alphabet() []c15Input {
 	bad[10] ^= 0x40
 	add("crc-broken", bad)
 	return a
+}
+
+// Fresh performs operation i of a property as the first library call of the
+// process (mclib runs it when MC_FRESH is set) and returns a digest of the result.
+func Fresh(id string, i int) string {
+	if id != "C15" {
+		return "no fresh-process operations for " + id
+	}
+	alpha := c15Alphabet()
+	lvl := []slog.Level{slog.LevelDebug, slog.LevelInfo}[i%2]
+	in := alpha[(i/2)%len(alpha)]
+	res, fault := decodeDisplay(handler.New(T0, lvl), in.bytes)
+	return c15Digest(res, fault)
+}
+
+func c15Digest(res c15Result, fault string) string {
+	// (JSON, not %#v: nested pointers would print as addresses)
+	fields, err := json.Marshal(res.readable)
+	if err != nil {
+		fields = []byte("unmarshalable: " + err.Error())
+	}
+	h := sha256.Sum256([]byte(fmt.Sprintf("%d|%s|%s|%s", res.typ, res.text, stripTimeErr(res.errMsg), fields)))
+	return fmt.Sprintf("fault=%q digest=%x", fault, h[:8])
 }
 
 func stripTimeLines(s string) string {
@@ -312,6 +340,45 @@ func c15Histories(r *ev.Run) {
 				r.Count(1, 0, 4, 1)
 			}()
 		}
+	}
+	// each input decoded and displayed as the very first library call of a fresh
+	// process ("whether the frame is processed first or after any other frames"):
+	// one child process per (input, level)
+	if exe, err := os.Executable(); err == nil {
+		n := 2 * len(alpha)
+		results := make([]string, n)
+		var wg sync.WaitGroup
+		sem := make(chan struct{}, 16)
+		for i := 0; i < n; i++ {
+			wg.Add(1)
+			sem <- struct{}{}
+			go func(i int) {
+				defer wg.Done()
+				defer func() { <-sem }()
+				cmd := exec.Command(exe)
+				cmd.Env = append(os.Environ(), "MC_PROP=C15", fmt.Sprintf("MC_FRESH=%d", i))
+				out, err := cmd.Output()
+				if err != nil {
+					results[i] = "child failed: " + err.Error()
+					return
+				}
+				results[i] = strings.TrimSpace(string(out))
+			}(i)
+		}
+		wg.Wait()
+		for i := 0; i < n; i++ {
+			lvl := []slog.Level{slog.LevelDebug, slog.LevelInfo}[i%2]
+			in := alpha[(i/2)%len(alpha)]
+			res, fault := decodeDisplay(handler.New(T0, lvl), in.bytes) // this process has decoded thousands of frames by now
+			want := c15Digest(res, fault)
+			r.Count(1, 0, 2, 1)
+			if strings.HasPrefix(results[i], "child failed") {
+				r.Cap("fresh-process operation could not be run: " + results[i])
+			} else if results[i] != want {
+				fail("result-differs-when-the-frame-is-the-first-one-a-process-handles", lvl, []string{in.name}, fmt.Sprintf("fresh process %q, after many frames %q", results[i], want))
+			}
+		}
+		r.Extra["fresh_process_first_frames"] = n
 	}
 	// very long non-RTCM messages (a text feed without a 0xD3 byte is delivered in
 	// one piece): displayed three times by one consumer while another holds a copy
